@@ -130,17 +130,17 @@ def shards(tier, seed):
                         "regs": {"fraction": 330, "float": 230, "decimal": 70}})
         else:
             out.append({"kind": "helpers", "system": s, "name": f"helpers-{s}-F",
-                        "regs": {"fraction": 40000}})
+                        "regs": {"fraction": 30000}})
             out.append({"kind": "helpers", "system": s, "name": f"helpers-{s}-f",
-                        "regs": {"float": 30000, "decimal": 8000}})
+                        "regs": {"float": 24000, "decimal": 6000}})
     for i, nit in enumerate(("fraction", "float", "decimal") if q else
                             ("fraction", "fraction", "float", "decimal")):
         out.append({"kind": "compact", "nit": nit, "name": f"compact-{nit}-{i}",
-                    "n": 3000 if q else 200000, "sweep": 3 if q else 12})
+                    "n": 3000 if q else 150000, "sweep": 3 if q else 12})
     for i, nit in enumerate(("fraction", "float") if q else ("fraction", "fraction", "float")):
         slow = 2 if nit == "fraction" else 1         # mip on Fraction coefficients is ~5x slower
         out.append({"kind": "auto", "nit": nit, "name": f"auto-{nit}-{i}",
-                    "n": 900 if q else 45000, "npref": (60 if q else 1200) // slow})
+                    "n": 900 if q else 35000, "npref": (60 if q else 1200) // slow})
     for i, nit in enumerate(("fraction", "float") if q else ("fraction", "fraction", "float")):
         slow = 3 if nit == "fraction" else 1
         out.append({"kind": "preferred", "nit": nit, "name": f"preferred-{nit}-{i}",
@@ -341,6 +341,26 @@ class Oracle:
 
     def stress(self, units):
         return sum(abs(float(fexp(e))) * self.stress1(n) for n, e in units.items())
+
+    def reduced_stress_bound(self, units):
+        """stress of the worst destination to_reduced_units may pick: each group of mergeable
+        units collapsed onto any one of its members (planck_length**13 is a real outcome)."""
+        groups = {}
+        for n, e in units.items():
+            groups.setdefault(self.proj_key(n), []).append((n, fexp(e)))
+        total = 0.0
+        for key, members in groups.items():
+            if not key:
+                total += sum(abs(float(e)) * self.stress1(n) for n, e in members)
+                continue
+            k0 = key[0][0]
+            worst = 0.0
+            for tgt, _ in members:
+                dt = self.info(tgt)[1][k0]
+                exp_t = sum(e * self.info(n)[1][k0] / dt for n, e in members)
+                worst = max(worst, abs(float(exp_t)) * self.stress1(tgt))
+            total += worst
+        return total
 
     def system_stress(self, system, units):
         """stress of the destination of to_base_units: root units mapped through the rules."""
@@ -613,6 +633,8 @@ class Monitor:
                 s += o.system_stress(self.system, units)
             elif helper.endswith("root_units"):
                 pass
+            elif "reduced" in helper or helper == "auto":
+                s += max(o.stress(units), o.reduced_stress_bound(units))
             else:
                 s += o.stress(units)
         except KeyError:
@@ -1436,6 +1458,11 @@ def run_preferred(spec, rec, rng, pintload, pint, o, names):
                     k0 = next(iter(dq))
                     if any(dp[k] * dq[k0] != dq[k] * dp[k0] for k in dq):
                         shape = {"shape": "preferred-unit-with-same-dimension-set-but-not-proportional"}
+                    elif regname != "fraction" and shape["shape"] == "random-preferred-list":
+                        r = dq[k0] / dp[k0]
+                        if r.denominator & (r.denominator - 1):
+                            # preferred_unit ** (1/5) in float exponents: -0.4*3 + 0.2 != -1
+                            shape = {"shape": "inexact-exponents:non-dyadic-dimension-ratio"}
         # the destination is unknown when the call raises: any of the listed units, to a power
         dst = 6 * max(o.stress(d) for d in plist_units) if pname == "random" else 0.0
         dstu = plist_units if pname == "random" else ()
